@@ -499,7 +499,23 @@ func TestC14Mixed(t *testing.T) {
 		toks := make([]string, n)
 		vals := make([]interface{}, n)
 		for i := 0; i < n; i++ {
-			switch uni(t, 4, "kind") {
+			switch uni(t, 6, "kind") {
+			case 4, 5:
+				// the same characters between different delimiters: 'true' is a string, `true` a boolean,
+				// "true" a field name (anything that remembers a token by its text alone confuses them)
+				text := []string{"1", "true", "null", "0.5", "-0", "[1]", "{}", "12", "false", "\"a\"", "[]", "1e2"}[uni(t, 12, "twinText")]
+				switch uni(t, 3, "twinKind") {
+				case 0:
+					toks[i], vals[i] = "'"+text+"'", text
+				case 1:
+					toks[i], vals[i] = "`"+text+"`", mustJSON(text)
+				default:
+					if strings.ContainsAny(text, "\"") {
+						toks[i], vals[i] = "'"+text+"'", text
+					} else {
+						toks[i], vals[i] = `"`+text+`"`, marker(text)
+					}
+				}
 			case 0:
 				s := genHardString(t, "raw")
 				if !inRawDomain(s) {
